@@ -137,10 +137,12 @@ def fromIsQuery : List Src → Bool | .query _ :: _ => true | _ => false
 def wantsNamespace (fl : QFlags) (hasJoins : Bool) (nFrom : Nat) (fromQ : Bool) (hasUpdate : Bool) : Bool :=
   hasJoins || nFrom > 1 || fromQ || fl.foreignTable || (hasUpdate && nFrom > 0)
 
-/-- kwargs as seen by the dialect-level `get_sql` (Oracle / MSSQL force `groupby_alias=False`;
-    MySQL / PostgreSQL keep `with_alias` and `subquery` in kwargs) -/
+/-- kwargs as seen by the dialect-level `get_sql`: `groupby_alias` is set by the outermost statement — Oracle / MSSQL
+    `setdefault` it to `False`, every `QueryBuilder.get_sql` then `setdefault`s it to `True` — and kept below it
+    (MySQL / PostgreSQL keep `with_alias` and `subquery` in kwargs) -/
 def dialectCtx (c : Ctx) (fl : QFlags) : Ctx :=
-  setDefaults (if fl.cls.fetchFamily then { c with groupbyAlias := false } else c) fl.cls fl.dialect fl.asKeyword
+  setDefaults (if c.groupbyAliasSet then c else { c with groupbyAlias := !fl.cls.fetchFamily, groupbyAliasSet := true })
+    fl.cls fl.dialect fl.asKeyword
 
 /-- kwargs inside `QueryBuilder.get_sql`: `with_alias` / `subquery` are named parameters,
     `with_namespace` is assigned -/
